@@ -7,7 +7,7 @@ CONSTANTS
   NewObjs <- MCNewObjs
   MaxDepth = 3
   Starts <- StartsQuick
-  Allowed = {"delete.array.dup", "delete.streamdict", "delete.trailer", "resources.shadow", "contents.refToArray"}
+  Allowed = {}
   Emit = TRUE
   EmitMod = 4000
   EmitModV = 400
